@@ -305,6 +305,38 @@ func (g *gen) lowWordTriples() [][]aref {
 			}
 		}
 	}
+	// the same for the two parts of a ratio: equal numerators over denominators with the same low 64 bits, and
+	// congruent numerators over one denominator (Ratio.Equal decides for the elements of a vector; a comparison of
+	// the parts through Int64() identifies them).  Seeded change C05-9.
+	nums := []*big.Int{big.NewInt(1), big.NewInt(-1), big.NewInt(5), add(pow2(62), 1), big.NewInt(int64(g.rng.Intn(1000)) + 2)}
+	dens := []*big.Int{big.NewInt(3), big.NewInt(7), big.NewInt(2), add(p63, 2), add(p64, 3), big.NewInt(int64(g.rng.Intn(1000))*2 + 3)}
+	for ni, n := range nums {
+		for di, d := range dens {
+			k := big.NewInt([]int64{1, 2, 3, 1 << 10}[(ni+di)%4])
+			d2 := new(big.Int).Add(d, new(big.Int).Mul(p64, k))
+			a, b := nRat(n, d), nRat(n, d2)
+			if a.k != kRat || b.k != kRat {
+				continue
+			}
+			if (ni+di)%5 == 4 { // congruent numerators
+				b = nRat(new(big.Int).Add(n, new(big.Int).Mul(p64, k)), d)
+				if b.k != kRat {
+					continue
+				}
+			}
+			c := nRat(n, new(big.Int).Add(d2, p64))
+			var tr []*node
+			switch (ni + di) % 3 {
+			case 0:
+				tr = []*node{nVec(b), nVec(a), nVec(c)}
+			case 1:
+				tr = []*node{nVec(a), nVec(b), nLst(b)}
+			default:
+				tr = []*node{nLst(nSym("w"), nVec(nFix(1), b)), nLst(nSym("w"), nVec(nFix(1), a)), b}
+			}
+			out = append(out, []aref{mkref(tr[0]), mkref(tr[1]), mkref(tr[2])})
+		}
+	}
 	return out
 }
 
@@ -375,7 +407,99 @@ func (g *gen) simpleAtom() *node {
 	}
 }
 
+// bytePool: signed-byte / unsigned-byte numbers as keys - the other numbers held by a pointer, which HashTable.Key
+// has to resolve by type and value.  Every value twice or more in separately created objects (and now and then the
+// same box again), among strings and symbols; one pool in four also holds a key of another Go type with the same
+// value (the other signedness or the fixnum), which is eql but a different key: outside the guard.
+func (g *gen) bytePool() []aref {
+	vals := []int64{0, 1, 5, 7, 127, 128, 255, 256, 300, 65535, 1 << 40, int64(g.rng.Intn(1000))}
+	mk := func(v int64) *node {
+		if v >= 0 && g.rng.Bool() {
+			return nUB(v)
+		}
+		if g.rng.Bool() {
+			v = -v
+		}
+		return nSB(v)
+	}
+	var pool []aref
+	for len(pool) < 4 {
+		nd := mk(common.Pick(g.rng, vals))
+		first := mkref(nd)
+		pool = append(pool, first, mkref(nd)) // two objects, one value
+		if g.rng.Chance(30) {
+			pool = append(pool, first) // the same box again
+		}
+	}
+	switch g.rng.Intn(4) {
+	case 0:
+		b := pool[g.rng.Intn(len(pool))].n
+		switch {
+		case g.rng.Bool():
+			pool = append(pool, mkref(nFix(b.z.Int64())))
+		case b.k == kUB:
+			pool = append(pool, mkref(nSB(b.z.Int64())))
+		case b.z.Sign() >= 0:
+			pool = append(pool, mkref(nUB(b.z.Int64())))
+		}
+	case 1:
+		pool = append(pool, mkref(nStr(common.Pick(g.rng, stringPool))), mkref(nFix(int64(g.rng.Intn(5))+1000)))
+	case 2:
+		pool = append(pool, mkref(nSym(common.Pick(g.rng, symbolPool))))
+	}
+	for i := len(pool) - 1; i > 0; i-- {
+		j := g.rng.Intn(i + 1)
+		pool[i], pool[j] = pool[j], pool[i]
+	}
+	return pool
+}
+
+// fixedPool: the pools every run starts with, each used for three histories of 12 operations: every kind of
+// number held by a pointer (bignum, ratio, signed-byte, unsigned-byte) as two separately created objects per value
+// plus a second value, and the low-word pairs (bignum / fixnum, ratios with congruent denominators).
+func (g *gen) fixedPool(c int) []aref {
+	two := func(a, b *node) []aref { return []aref{mkref(a), mkref(a), mkref(b), mkref(b), mkref(a)} }
+	pools := []func() []aref{
+		func() []aref { return two(nSB(5), nSB(-256)) },
+		func() []aref { return two(nUB(7), nUB(300)) },
+		func() []aref { return two(nSB(0), nUB(1<<40)) },
+		func() []aref { return two(nSB(-288), nSB(-300)) }, // Equal after a rune-wise trim before repair C16-12
+		func() []aref { return two(nBig(e20), nBig(add(e20, 1))) },
+		func() []aref { return two(nRat(big.NewInt(1), big.NewInt(3)), nRat(big.NewInt(1), add(p64, 3))) },
+		func() []aref {
+			return two(nRat(big.NewInt(5), big.NewInt(7)), nRat(big.NewInt(5), add(new(big.Int).Lsh(p64, 1), 7)))
+		},
+		func() []aref { return two(nBig(add(p64, 1)), nFix(1)) },
+		func() []aref { return two(nSB(9), nStr("9")) },
+	}
+	if c/3 >= len(pools) {
+		return nil
+	}
+	return pools[c/3]()
+}
+
 func (g *gen) keyPool() []aref {
+	if g.rng.Chance(9) {
+		return g.bytePool()
+	}
+	if g.rng.Chance(5) {
+		// ratios whose numerators are equal and whose denominators have the same low 64 bits (or the other way
+		// round): a component-wise comparison through Int64() identifies them
+		n := common.Pick(g.rng, []*big.Int{big.NewInt(1), big.NewInt(-1), big.NewInt(5), add(pow2(62), 1)})
+		d := common.Pick(g.rng, []*big.Int{big.NewInt(3), big.NewInt(7), big.NewInt(2), add(p64, 3)})
+		k := big.NewInt(common.Pick(g.rng, []int64{1, 2, 3, 1 << 10}))
+		d2 := new(big.Int).Add(d, new(big.Int).Mul(p64, k))
+		a, b := nRat(n, d), nRat(n, d2)
+		if g.rng.Chance(30) { // congruent numerators over one denominator
+			n2 := new(big.Int).Add(n, new(big.Int).Mul(p64, k))
+			a, b = nRat(n, add(p64, 3)), nRat(n2, add(p64, 3))
+		}
+		pool := []aref{mkref(a), mkref(b), mkref(b), mkref(a)}
+		if g.rng.Bool() {
+			pool[0], pool[1] = pool[1], pool[0]
+		}
+		return pool
+	}
 	if g.rng.Chance(6) {
 		// a bignum beyond int64, the fixnum with its low 64 bits, and copies of both: four simple keys, two classes
 		k := common.Pick(g.rng, []int64{1, 2, 3, 1 << 10})
@@ -449,12 +573,16 @@ func runHt(ctx *common.Ctx, g *gen, n int) {
 			continue
 		}
 		ctx.Hist("ht-make:" + strings.TrimSpace(mk))
-		pool := g.keyPool()
+		pool := g.fixedPool(c) // a fixed block of pools first (full-length histories), then drawn ones
+		fixed := pool != nil
+		if !fixed {
+			pool = g.keyPool()
+		}
 		w := words{}
 		pterms := make([]string, len(pool))
 		pshow := make([]string, len(pool))
 		for i, r := range pool {
-			pterms[i] = refTerm(r, w)
+			pterms[i] = keyTerm(r, w)
 			pshow[i] = fmt.Sprintf("%d:%s@%d", i, r.n.show(), w.id(r.o))
 			ctx.Hist("ht-key:" + r.n.kindName())
 		}
@@ -468,6 +596,9 @@ func runHt(ctx *common.Ctx, g *gen, n int) {
 			trows[i] = "[" + strings.Join(cells, "; ") + "]"
 		}
 		nops := 1 + g.rng.Intn(12)
+		if fixed {
+			nops = 12
+		}
 		ops := make([]string, 0, nops)
 		obs := make([]string, 0, nops)
 		oshow := make([]string, 0, nops)
@@ -571,7 +702,8 @@ func runHt(ctx *common.Ctx, g *gen, n int) {
 		"Definition model_mismatches := Eval vm_compute in ht_mismatches cases : N.\nPrint model_mismatches.\n" +
 		"Definition histories_in_table_guard := Eval vm_compute in ht_guarded cases : N.\nPrint histories_in_table_guard.\n" +
 		"Definition histories_not_a_finite_map_under_the_test := Eval vm_compute in ht_spec_violations cases : N.\nPrint histories_not_a_finite_map_under_the_test.\n" +
-		"Definition guarded_pools_outside_pool_ok := Eval vm_compute in ht_guard_implies_pool_ok cases : N.\nPrint guarded_pools_outside_pool_ok.\n"
+		"Definition guarded_pools_outside_pool_ok := Eval vm_compute in ht_guard_implies_pool_ok cases : N.\nPrint guarded_pools_outside_pool_ok.\n" +
+		"Definition byte_key_histories_in_table_guard := Eval vm_compute in ht_byte_pools_guarded cases : N.\nPrint byte_key_histories_in_table_guard.\n"
 	ctx.WriteShards("cases_ht", header, "ht_case", footer, terms, descs, 6)
 	ctx.Meta.Evaluations += len(terms)
 	ctx.Meta.DistinctNontrivial += nontrivial
@@ -661,6 +793,16 @@ func sameGoKey(a, b slip.Object) (eq bool) {
 	case *slip.Ratio:
 		if tb, ok := b.(*slip.Ratio); ok {
 			return (*big.Rat)(ta).Cmp((*big.Rat)(tb)) == 0
+		}
+		return false
+	case *slip.SignedByte:
+		if tb, ok := b.(*slip.SignedByte); ok {
+			return ta.AsFixOrBig() == tb.AsFixOrBig() // values inside int64: fixnums
+		}
+		return false
+	case *slip.UnsignedByte:
+		if tb, ok := b.(*slip.UnsignedByte); ok {
+			return ta.AsFixOrBig() == tb.AsFixOrBig()
 		}
 		return false
 	}
